@@ -2,6 +2,7 @@ import PyYetiVerif.Model.Findap
 import PyYetiVerif.Model.Binify
 import PyYetiVerif.Model.Fde
 import PyYetiVerif.Model.Rainflow
+import PyYetiVerif.Model.FdePsd
 /-! Line protocol for C10.  Numbers are exact rationals `n` or `n/d`; `|` separates groups,
 `;` separates cycles.
 
@@ -16,6 +17,13 @@ import PyYetiVerif.Model.Rainflow
                                     → `rows|ampb|aveb` | `value-error` | `index-error`
   sc  tol right | s n or v b… | s n or v b… | y…    sigcount pipeline (findap → rainflow → binify)
   fde nbins | amp cnt ; …           fdepsd bookkeeping  → `amax|levels|count|bincount|df4 df8 df12`
+  ab  n right | data…               getbins(n, max(data), min(data), right) and the bin of every datum
+                                    → `edges | digitize indices | covered flags` | `value-error` (no data)
+  ff  resp Q f T0 nbins tol | x…    per-frequency worker at Float (`Fde.fdeFreq`): every number is the
+                                    decimal value of an IEEE-754 bit pattern; `resp` = `a` | `p`
+                                    → `srs var amax g2max|levels|count|bincount|df4 df8 df12|18 psd-row values`
+                                    | `value-error`
+  ft  resp Q f T0 nbins | amp cnt ; …   the same from a cycle table (`Fde.fdeTable`), bit patterns
 -/
 open PyYetiVerif
 
@@ -71,8 +79,71 @@ def pipeline (tol : Rat) (y : List Rat) : Option (List (Rat × Rat × Rat)) :=
       (Rainflow.rainflowApi peaks).map fun t =>
         t.map fun c => (c.rng / 2, c.sum / 2, if c.full then 1 else 1 / 2)
 
+/-! ### Float instance of the fdepsd model -/
+
+def parseCycles' (ws : List String) : Option (List (Float × Float)) :=
+  let chunks := (" ".intercalate ws).splitOn ";"
+  (chunks.filter fun c => words c ≠ []).mapM fun c =>
+    match words c with
+    | [a, b] => do
+        let a ← a.toNat?
+        let b ← b.toNat?
+        some (Float.ofBits a.toUInt64, Float.ofBits b.toUInt64)
+    | _ => none
+
+
+instance : NatCast Float := ⟨Float.ofNat⟩
+instance : Zero Float := ⟨Float.ofNat 0⟩
+instance : Fde.TransOps Float where
+  log := Float.log
+  sqrt := Float.sqrt
+  pow := Float.pow
+  pi := Float.ofBits 0x400921FB54442D18   -- np.pi
+
+def parseF (s : String) : Option Float := s.toNat?.map fun n => Float.ofBits n.toUInt64
+def parseFs (ws : List String) : Option (List Float) := ws.mapM parseF
+def fmtF (x : Float) : String := toString x.toBits.toNat
+def fmtFs (l : List Float) : String := " ".intercalate (l.map fmtF)
+
+def parseResp : String → Option Fde.Resp
+  | "a" => some .absacce
+  | "p" => some .pvelo
+  | _ => none
+
+def fmtTab (t : Fde.TableOut Float) : String :=
+  let r := t.row
+  let p := t.psd
+  s!"{fmtF t.g2max}|{fmtFs r.levels}|{fmtFs r.count}|{fmtFs r.bincount}|{fmtFs [r.df4, r.df8, r.df12]}|" ++
+    fmtFs [p.g1, p.g2, p.g4, p.g8, p.g12, p.pk2, p.pk4, p.pk8, p.pk12, p.v4, p.v8, p.v12,
+           p.dt4, p.dt8, p.dt12, p.dto4, p.dto8, p.dto12]
+
 def answer (line : String) : String :=
   match groups line with
+  | ["ab", n, r] :: [xs] => match n.toNat?, parseBool r, parseRats xs with
+      | some n, some r, some xs => match Binify.maxOf xs, Binify.minOf xs with
+          | some mx, some mn =>
+              let bb := Binify.getbinsScalar n mx mn r
+              let idx := xs.map fun x => Binify.digitize r x bb
+              -- covered: 1 ≤ idx ≤ n, i.e. the datum lies in one of the n half-open bins
+              let cov := idx.map fun d => if 1 ≤ d ∧ d ≤ n then 1 else 0
+              s!"{fmtRats bb}|{fmtNats idx}|{fmtNats cov}"
+          | _, _ => "value-error"
+      | _, _, _ => "bad-op"
+  | ["ff", rs, q, f, t0, n, tol] :: [xs] =>
+      match parseResp rs, parseF q, parseF f, parseF t0, n.toNat?, parseF tol, parseFs xs with
+      | some rs, some q, some f, some t0, some n, some tol, some x =>
+          match Fde.fdeFreq rs q f t0 n tol x with
+          | some o => s!"{fmtFs [o.srs, o.var, o.tab.row.amax]} {fmtTab o.tab}"
+          | none => "value-error"
+      | _, _, _, _, _, _, _ => "bad-op"
+  | ["ft", rs, q, f, t0, n] :: [cs] =>
+      match parseResp rs, parseF q, parseF f, parseF t0, n.toNat?,
+            (parseCycles' cs) with
+      | some rs, some q, some f, some t0, some n, some cyc =>
+          match Fde.fdeTable rs q f t0 n cyc with
+          | some t => s!"{fmtF t.row.amax} {fmtTab t}"
+          | none => "value-error"
+      | _, _, _, _, _, _ => "bad-op"
   | ["bn", r, c] :: sa :: sm :: [cs] =>
       match parseBool r, parseBool c, parseSpec sa, parseSpec sm, parseCycles 3 cs with
       | some r, some c, some sa, some sm, some cs => fmtApi (Binify.binifyApi r c sa sm (toCyc3 cs))
